@@ -227,7 +227,9 @@ func (o *oracles) SMRecovered(i *SMInst, how string, applied uint64) {
 		return
 	}
 	o.s.ctx.Count("probe.sm_"+how, 1)
-	if e := o.s.expected; e != nil && how == "recover" && !i.importChecked {
+	// (a later incarnation may recover from a newer snapshot of its own or of the
+	// leader: only a recovery that ends at the export's index is from the export)
+	if e := o.s.expected; e != nil && how == "recover" && !i.importChecked && applied == e.index {
 		i.importChecked = true
 		o.s.ctx.Count("probe.import_state_checked", 1)
 		if i.st.hash() != e.state.hash() {
